@@ -1,2 +1,3 @@
 import PqVerif.Driver.Comb
 import PqVerif.Driver.Expr
+import PqVerif.Driver.Engine
